@@ -92,6 +92,53 @@ def cpp_reader_layer(ctx, n_scripts, bufsizes):
                     "broken": "correspondence Model.CodedCpp.rrun vs coded_stream.h"}, no_input=True)
 
 
+def py_reader_layer(ctx, n_scripts, bufsizes):
+    """The Python CodedInputStream against the abstract byte-list reader (no machine model yet)."""
+    pyrt = cc.make_pyrt(ctx)
+    rng = ctx.rng
+    cases = []
+    for i in range(n_scripts):
+        ops, data = cc.gen_script(rng)
+        cuts = list(range(len(data) + 1)) if len(data) <= 48 else sorted(set(
+            [0, 1, len(data) - 1, len(data)] + [rng.randrange(len(data)) for _ in range(24)]))
+        for bs in rng.sample(bufsizes, min(2, len(bufsizes))):
+            cs = set(cuts) | {k for k in range(0, len(data) + 1, bs)}
+            for cut in sorted(cs):
+                cases.append((bs, data[:cut], ops))
+                ctx.count("py_reader_bufsize", str(bs))
+                ctx.count("py_reader_cut", "complete" if cut == len(data) else ("empty" if cut == 0 else (
+                    "at-buffer-boundary" if cut % bs == 0 else "inside")))
+    obs = cc.run_py_reader_cases(ctx, pyrt, cases, rng)
+    for o in obs:
+        for t in o:
+            if t == "EOF" or t.startswith("ERR:"):
+                ctx.count("py_reader_error_kind", t)
+    shards = shard(list(zip(cases, obs)), 400)
+
+    def ev(ix_sh):
+        ix, sh_ = ix_sh
+        out = ctx.coq_eval("pycases_%d" % ix, cc.py_reader_cases_v([c for c, _ in sh_], [o for _, o in sh_]))
+        return ix, Ctx.parse_nat_list(out, "MA")
+
+    with ThreadPoolExecutor(max_workers=8) as ex:
+        results = list(ex.map(ev, enumerate(shards)))
+    ma = []
+    for ix, m in results:
+        ma += [ix * 400 + k for k in m]
+    for (bs, data, ops), o in zip(cases, obs):
+        ctx.case(("py-in", bs, tuple(data), tuple(ops)), nontrivial=len(ops) > 0,
+                 sample={"layer": "py-coded-in", "bufsize": bs, "input_hex": cc.hexs(data),
+                         "ops": [cc.py_op_text(x) for x in ops], "observed": o})
+    ctx.coverage["traces_validated_against_impl"] = ctx.coverage.get("traces_validated_against_impl", 0) + len(cases)
+    for k in ma[:3]:
+        bs, data, ops = cases[k]
+        ctx.report("py-coded-in:wrong-result",
+                   "_binary.CodedInputStream(buffer_size=%d) on %d input bytes, script %s returned %s; the byte-level "
+                   "contract (abstract reader) says otherwise" % (bs, len(data), [cc.py_op_text(x) for x in ops], obs[k]),
+                   {"layer": "py-coded-in", "bufsize": bs, "input": data, "ops": [list(x) for x in ops], "observed": obs[k],
+                    "broken": "correspondence Model.CodedCpp.arun vs _binary.py CodedInputStream"})
+
+
 def run(ctx):
     ctx.build_repo(need_hook=False)
     ok, failing, log = ctx.coq_props("C16")
@@ -104,6 +151,7 @@ def run(ctx):
                    {"broken": failing, "log": log[-3000:]}, no_input=True)
     quick = ctx.tier == "quick"
     cpp_reader_layer(ctx, 40 if quick else 400, [1, 2, 3, 4, 5, 7, 8, 10, 11, 16, 17, 64])
+    py_reader_layer(ctx, 30 if quick else 300, [8, 9, 10, 11, 16, 17, 64])
 
 
 def replay(ctx, path):
